@@ -52,7 +52,8 @@ CONSTANTS
   MaxChanges, MaxUpdates, MaxCalls,
   ModernUnsub,  \* environment: modern sessions may unsubscribe a URI
   Stepwise,          \* environment acts only at SDK quiescence (scenario discipline)
-  Gates,        \* environment may hold the three client-side gates
+  Gates,        \* environment may hold client-side gates ...
+  GateNames,    \* ... these: subset of {"inv", "usr", "put"}
   ClientFirst   \* reduction: server and environment wait until the clients have drained their channels
 
 VARIABLES
@@ -345,8 +346,6 @@ Release(g, s) ==
   /\ EnvOK /\ <<g, s>> \in gates
   /\ gates' = gates \ {<<g, s>>}
   /\ UNCHANGED <<now, ver, ref, refDue, orph, cbs, sess, lsub, rsub, usub, chan, nq, hnd, cache, call, handled, race, budget, ent, got, bad>>
-
-GateNames == {"inv", "usr", "put"}
 
 SdkNext ==
   \/ \E n \in Notifs : TimerFire(n) \/ OrphFire(n) \/ CallbackRun(n)
